@@ -13,8 +13,11 @@ from archlib import NP, batch_kwargs, decode_tok, fr, solution_of, to_dtype
 from core import Driver, Failure, q, ql
 
 ID = "C14"
-PROOF_MODULES = ["PyribsProofs.C14"]
+from genf import translate  # noqa: E402,F401  (regenerates lean/PyribsGen/{Formulas,Control}.lean from the tree under check)
+PROOF_MODULES = ["PyribsProofs.C14", "PyribsGen.Control", "PyribsProofs.GenFProx"]
 THEOREMS = [
+    "Pyribs.GenFProofs.novel_enough_is_ge",
+    "Pyribs.GenFProofs.novel_decision_from_source",
     "Pyribs.C14.sqrtLo_le",
     "Pyribs.C14.le_sqrtHi",
     "Pyribs.C14.sqrt_bracket_real",
